@@ -229,3 +229,29 @@ def rule_f2b(repo, res):
                                 "decoder returns '' for the first byte(s) of a multi-byte character, so the label is cut "
                                 "at the first non-ASCII character when read from a binary stream or URL",
                                 where=f"pvl/__init__.py:{b.lineno}"))
+
+
+def rule_f3(repo, res):
+    """F3: get_text_from re-reads an already-open stream (binary fall-back) from the position the stream had when
+    it was handed in: every <stream>.seek(x) gets an x that derives from <stream>.tell() taken before the read
+    (taint walk).  A constant offset re-reads from somewhere else, so a stream positioned past a header gives one
+    text through the text path and another through the binary fall-back."""
+    from . import flow
+    for mod in ("__init__",):
+        fn = repo.function(mod, "get_text_from")
+        stream = fn.args.args[0].arg
+        is_tell = lambda e: isinstance(e, ast.Call) and isinstance(e.func, ast.Attribute) and e.func.attr == "tell" \
+            and norm(e.func.value) == stream
+        is_seek = lambda c: isinstance(c.func, ast.Attribute) and c.func.attr == "seek" and norm(c.func.value) == stream
+        seeks = [n for n in ast.walk(fn) if isinstance(n, ast.Call) and is_seek(n)]
+        hits = {id(c) for c, _, _ in flow.sinks(fn, is_tell, is_seek)}
+        res.floor("seek calls on the stream in get_text_from", len(seeks), 1)
+        for c in seeks:
+            ok = id(c) in hits and len(c.args) == 1 and not c.keywords
+            res.oblige("F3", f"get_text_from `{norm(c)}` returns to the position saved by {stream}.tell()", ok=ok)
+            if not ok:
+                res.add(Finding("F3", "__init__.get_text_from", "seek target",
+                                f"`{norm(c)}` does not return to the position the stream had before the read (a value of "
+                                f"{stream}.tell()): a stream handed in at an offset is re-read from another place on the binary "
+                                "fall-back path, so text and binary streams over the same bytes give different modules",
+                                where=f"pvl/__init__.py:{c.lineno}"))
